@@ -6,6 +6,7 @@ use std::collections::HashMap;
 use nucleo_matcher::chars;
 
 use crate::jobj;
+use crate::json::show_chars;
 use crate::m_match::{eval_case, Case, Eval, Props};
 use crate::refm::*;
 use crate::report::Report;
@@ -217,6 +218,57 @@ pub fn coherence_part(opts: &Opts, rep: &mut Report) {
                     for &hr in h_reprs {
                         for &nr in n_reprs {
                             eval_case(&mut ev, &mut rng, &case, hr, nr);
+                        }
+                    }
+                }
+            }
+        }
+        // the image of a character that is itself moved again (the composed projection is not idempotent for a few dozen
+        // characters: U+1E9E -> U+00DF -> s): a haystack that holds the image *raw* must not match a needle holding the image,
+        // at any site that filters, scans or compares (the sites that do not touch the needle are probed: fuzzy, greedy, substring)
+        if moved {
+            for ci in 0..4usize {
+                let cfg = RCfg {
+                    ignore_case: ci & 1 != 0,
+                    normalize: ci & 2 != 0,
+                    bonus: BonusCfg::Default,
+                    prefer_prefix: false,
+                };
+                let img = ref_norm(c, &cfg);
+                if img == c || ref_norm(img, &cfg) == img || img.is_ascii() {
+                    continue;
+                }
+                matcher.config = cfg.real();
+                for (hay, needle) in [
+                    (vec![fill[0], fill[1], img, fill[0]], vec![img]),
+                    (vec![img, fill[1], fill[2]], vec![img]),
+                    (vec![fill[0], fill[1], img], vec![img]),
+                    (vec![fill[0], img, fill[1], fill[2]], vec![ref_norm(fill[0], &cfg), img]),
+                    (vec![fill[0], fill[1], img, fill[2]], vec![img, ref_norm(fill[2], &cfg)]),
+                ] {
+                    let hn = ref_norm_all(&hay, &cfg);
+                    if needle.iter().all(|n| hn.contains(n)) && needle.len() == 1 {
+                        continue; // some other haystack character really maps to it
+                    }
+                    let h = Text::new(hay.clone());
+                    let n = Text::new(needle.clone());
+                    rep.count("c16.raw-image-probes");
+                    for algo in [Algo::Fuzzy, Algo::Greedy, Algo::Substring] {
+                        for with_indices in [false, true] {
+                            let mut idx = Vec::new();
+                            let r = caught(|| call(&mut matcher, algo, h.view(false), n.view(false), if with_indices { Some(&mut idx) } else { None }));
+                            match r {
+                                Ok(None) => (),
+                                Ok(Some(score)) => rep.violation(
+                                    "C16",
+                                    "coherence/raw-image-accepted",
+                                    format!("{}{}", algo.name(), if with_indices { "_indices" } else { "_match" }),
+                                    jobj! {"haystack" => show_chars(&hay), "needle" => show_chars(&needle), "config" => format!("{cfg:?}"), "score" => score as u64,
+                                           "indices" => idx.iter().map(|&x| x as u64).collect::<Vec<u64>>(), "case_id" => format!("U+{u:04X}"),
+                                           "problem" => format!("U+{:04X} in the haystack normalizes to U+{:04X} under this configuration, yet it was accepted for the needle character U+{:04X}", img as u32, ref_norm(img, &cfg) as u32, img as u32)},
+                                ),
+                                Err(e) => rep.violation("C16", "panic", format!("panic@{}", e.rsplit(" @ ").next().unwrap_or("")), jobj! {"message" => e, "case_id" => format!("U+{u:04X}")}),
+                            }
                         }
                     }
                 }
